@@ -18,10 +18,13 @@ func TestC13(t *testing.T) { simkit.Main(t, SpecC13()) }
 func TestC16(t *testing.T) { simkit.Main(t, SpecC16()) }
 func TestC17(t *testing.T) { simkit.Main(t, SpecC17()) }
 func TestC18(t *testing.T) { simkit.Main(t, SpecC18()) }
-func TestC37(t *testing.T) { simkit.Main(t, SpecC37()) }
+func TestC37(t *testing.T) { simkit.Main(t, SpecC37Both()) }
 func TestC33(t *testing.T) { simkit.Main(t, SpecC33()) }
 func TestC01(t *testing.T) { simkit.Main(t, SpecC01()) }
 func TestC24(t *testing.T) { simkit.Main(t, SpecC24()) }
 func TestC25(t *testing.T) { simkit.Main(t, SpecC25()) }
 func TestC02(t *testing.T) { simkit.Main(t, SpecC02()) }
 func TestC27(t *testing.T) { simkit.Main(t, SpecC27()) }
+func TestC37d(t *testing.T) { simkit.Main(t, SpecC37d()) }
+func TestC03(t *testing.T) { simkit.Main(t, SpecC03()) }
+func TestC04(t *testing.T) { simkit.Main(t, SpecC04()) }
